@@ -294,7 +294,13 @@ impl BitvectorExtended for Bitvector {
             ))
         } else {
             let result = self.clone().into_checked_mul(rhs).unwrap();
-            if result.clone().into_checked_sdiv(self).unwrap() != *rhs {
+            // The division check below does not detect the overflow of `-1 * MIN`,
+            // since the division `MIN / -1` overflows to `MIN` itself.
+            let is_minus_one_times_min = (-self.clone()).is_one()
+                && *rhs == Bitvector::signed_min_value(rhs.width());
+            if is_minus_one_times_min
+                || result.clone().into_checked_sdiv(self).unwrap() != *rhs
+            {
                 Ok((result, true))
             } else {
                 Ok((result, false))
